@@ -9,12 +9,19 @@ F_EINSUM, F_CONTRACTION, F_INNER, F_OUTER, F_EXPLICIT, F1_EINSUM, F1_CONTRACTION
 
 RULE = ("instances = (index pattern, label numbering, extents, element type, call form). Patterns: every way of identifying "
         "positions between and within two index lists of rank 1..4 such that no label occurs more than twice (1600 structures; all "
-        "in thorough, ~250 stratified over the library's own routes {outer, inner, permuted full reduction, generalised "
-        "matrix-vector, vector-matrix, matrix-matrix, general loop nest with/without vectorisable last label, within-operand "
-        "trace} in quick), plus every single-tensor pattern of rank 1..4 (rank 5,6 sampled in thorough). Extents per label from "
-        "{1,2,3,4,5,7,8,9,16,17}, DISTINCT on distinct free labels, under a flop cap; the label numbering is the order of first "
-        "appearance or a seeded shuffle. Forms einsum/contraction/inner/outer/einsum-with-OIndex (C++17 configurations only). "
-        "Per instance and configuration rapidcheck draws integer-valued (|x|<=9, exact oracle) and dyadic-real operands. "
+        "in thorough, ~240 in quick stratified over the classes {outer, inner, permuted full reduction, generalised matrix-vector, "
+        "vector-matrix, matrix-matrix, general loop nest with / without a vectorisable last label, within-operand trace reaching "
+        "each of those routes} and round-robin over the rank pairs inside a class), plus every single-tensor pattern of rank 1..4 "
+        "(rank 5 sampled; rank 6 in thorough). The class (mirror of the library's compile-time routing) is the last segment of the "
+        "case id. Extents per label from {1,2,3,4,5,7,8,9,16,17}, DISTINCT on distinct free labels, the last label of the second "
+        "operand cycling through the whole set, under a flop cap (quick 6000, thorough 30000; 600 for within-operand-trace "
+        "patterns, which hit known defects and are kept small so that shrinking stays cheap). Label numbering = order of first "
+        "appearance or a seeded injective map into 0..7. Forms einsum / contraction / inner (Ia==Ib) / outer (all labels free) / "
+        "einsum with OIndex (C++17 configurations only; seeded non-identity permutation of the free labels, every permutation for "
+        "<=3 free labels on a share of the thorough instances). Element types double, float, int. Configurations: standard ISA axis "
+        "+ -O3 -DNDEBUG, and CONTRACT_OPT in {1,-1} (thorough: 2) under C++14 and C++17 for the instances that reach the general "
+        "loop nest. Per instance and configuration rapidcheck draws integer-valued (|x|<=9, exact oracle) and dyadic-real operands. "
+        "Patterns for which einsum<Ia,Ib> is ill-formed in every configuration (see ASSUMPTIONS) are generated for contraction<> only. "
         "Non-trivial = operands have >=2 non-zero entries, >1 term, and ((>=1 summed label and >=1 free label and the free "
         "labels do not all share one extent) or a special route: inner, outer, full reduction, within-operand trace); "
         "distinct = distinct (instance, configuration, draw log).")
@@ -22,13 +29,20 @@ ASSUMPTIONS = ["reference = generic n-ary labelled summation over std::vector wi
                "(harness/props/einsum_ref.h), independent of Fastor; free labels = labels occurring once, in order of first appearance "
                "over the concatenated index lists; explicit-output form: result laid out in the order given by OIndex",
                "integer-valued data with |x|<=9 keeps every partial sum exact in float as long as (terms per element)*81 < 2^24; the "
-               "generator caps the total number of terms at 65000",
+               "generator caps the total number of terms at 30000 (the single rank-4 x rank-4 pure outer product with 8 distinct free "
+               "extents needs 60480 one-term elements)",
                "rounding bound gamma(terms+2)*sum|a||b| holds for any summation order, with or without FMA",
                "a pattern in which a label is repeated within ONE operand of a two-operand call is inside the domain: the property "
                "quantifies over identifications 'between and within the two lists', the library's only static check is 'no label more "
                "than twice over the concatenated list', and such calls compile",
+               "outside the accepted language (rejected in every configuration, not generated): einsum<Ia,Ib> for the 28 trace patterns "
+               "on which the library's own classifier match_indices_from_two_ends (einsum_meta.h) indexes out of bounds in a constant "
+               "expression (class trace-noeinsum: contraction<> only); outer(Tensor<T,1>,Tensor<T,1>) (ambiguous overloads); rank-0 operands",
                "strided_contraction<> is not observed: it is not reachable from einsum/contraction in this snapshot (dispatch commented "
-               "out in einsum.h) and is not among the property's observation points; CONTRACT_OPT=2 only changes that function"]
+               "out in einsum.h) and is not among the property's observation points; CONTRACT_OPT=2 only changes that function; "
+               "CONTRACT_OPT=-2/-3 (no reduction support, static_assert) are not configurations the design names",
+               "a SIGALRM watchdog (20 s) around the library call turns a kernel that loops forever after corrupting its own frame into "
+               "a recorded crash of that instance"]
 EXHAUSTIVE_SPACE = None
 CAP = {"quick": 6000, "thorough": 30000}      # flop cap (product of all unique extents) for non-trace pair patterns
 
@@ -225,12 +239,14 @@ def build_cases(tier, rng):
     lastv = [1, 2, 3, 4, 5, 7, 8, 9, 16, 17]
     k = 0
     for (a0, b0, route, cls) in pick_patterns(tier, rng):
-        variants = [False] + ([True] if tier == "thorough" or rng.random() < 0.2 else [])
+        variants = [False] + ([True] if rng.random() < (0.3 if tier == "thorough" else 0.2) else [])
         for shuffle in variants:
             a, b = renumber(a0, b0, rng, shuffle)
             cat = a + b
             free = [l for l in cat if cat.count(l) == 1]
-            types = ["d"] + (["f"] if tier == "thorough" or rng.random() < 0.35 else []) + (["i"] if rng.random() < (0.5 if tier == "thorough" else 0.12) else [])
+            lean = tier == "thorough" and cls.startswith("trace")      # the (large) within-operand-trace family: every structure, one type
+            types = ["d"] + (["f"] if rng.random() < (0.0 if lean else 0.5 if tier == "thorough" else 0.35) else []) + \
+                    (["i"] if rng.random() < (0.0 if lean else 0.15 if tier == "thorough" else 0.12) else [])
             for t in types:
                 k += 1
                 # within-operand-trace patterns hit known defects in most configurations: keep them small so that
@@ -240,15 +256,15 @@ def build_cases(tier, rng):
                 einsum_ok = route != "ill-formed"
                 if einsum_ok:
                     add(common, pair_case(t, F_EINSUM, a, b, ext, n, cls))
-                if tier == "thorough" or not einsum_ok or rng.random() < 0.4:
+                if not einsum_ok or rng.random() < (0.3 if lean else 0.4):
                     add(common, pair_case(t, F_CONTRACTION, a, b, ext, n, cls))
                 if cls == "inner":
                     add(common, pair_case(t, F_INNER, a, b, ext, n, cls))
                 if cls == "outer" and not (len(a) == 1 and len(b) == 1 and ext[a[0]] == 1 and ext[b[0]] == 1):
                     # outer(Tensor<T,1>,Tensor<T,1>) is ambiguous between two library overloads in every configuration
                     add(common, pair_case(t, F_OUTER, a, b, ext, n, cls))
-                if einsum_ok and free and rng.random() < (1.0 if tier == "thorough" else 0.45):
-                    for p in out_perms(free, rng, tier):
+                if einsum_ok and free and rng.random() < (0.25 if lean else 0.6 if tier == "thorough" else 0.45):
+                    for p in out_perms(free, rng, tier if tier == "quick" or rng.random() < 0.4 else "quick"):
                         add(cxx17, pair_case(t, F_EXPLICIT, a, b, ext, n, cls, out=p))
     # single-tensor patterns
     maxr = 4
